@@ -1221,13 +1221,16 @@ func (graph *Graph) recomputeNodeParallel(ctx context.Context, n INode) (err err
 	// worker's structural work, so on the parallel path it is serialized under
 	// recomputeMu. leaf nodes' Stabilize is left lock-free, which is the whole
 	// point of stabilizing in parallel.
-	mutatesStructure := nodeMutatesStructure(n)
-	if mutatesStructure {
-		graph.recomputeMu.Lock()
-	}
-	err = nn.maybeStabilize(ctx)
-	if mutatesStructure {
-		graph.recomputeMu.Unlock()
+	if nodeMutatesStructure(n) {
+		err = func() error {
+			// released by defer: a bind function that panics is recovered by the worker, and a
+			// lock still held at that point deadlocked the pass the next time anything needed it
+			graph.recomputeMu.Lock()
+			defer graph.recomputeMu.Unlock()
+			return nn.maybeStabilize(ctx)
+		}()
+	} else {
+		err = nn.maybeStabilize(ctx)
 	}
 	if err != nil {
 		graph.recomputeFailed(n, previousRecomputedAt)
